@@ -200,16 +200,20 @@ func (m *c17Model) view(drop bool) tableView {
 	return v
 }
 
+func stepGroups(st c17Step) map[string][]*targetgroup.Group {
+	in := map[string][]*targetgroup.Group{}
+	for _, j := range st.Jobs {
+		in[j] = []*targetgroup.Group{c17Group(j, st.Version, st.Sizes[j], st.Sizes[j]%3)}
+	}
+	return in
+}
+
 func runStep(p *pipeline, st c17Step) error {
 	switch st.Kind {
 	case "reload":
 		return p.cm.ReloadFromRaw([]byte(c17Config(st.Jobs)))
 	default:
-		in := map[string][]*targetgroup.Group{}
-		for _, j := range st.Jobs {
-			in[j] = []*targetgroup.Group{c17Group(j, st.Version, st.Sizes[j], st.Sizes[j]%3)}
-		}
-		return p.update(in)
+		return p.update(stepGroups(st))
 	}
 }
 
@@ -228,14 +232,38 @@ func runC17Sequential(w *core.WorkerCtx, idx int, res *core.CaseResult) {
 		nByHash     int
 	}
 	var snaps []snap
-	for si, st := range steps {
-		if err := runStep(p, st); err != nil {
+	for si := 0; si < len(steps); si++ {
+		st := steps[si]
+		// a run of updates may arrive back to back, as the discovery manager sends them: nobody waits
+		// for the explorer in between; the state is judged after the last one
+		nb := 1
+		if st.Kind == "update" && r.Intn(3) == 0 {
+			for si+nb < len(steps) && nb < 4 && steps[si+nb].Kind == "update" {
+				nb++
+			}
+		}
+		var err error
+		if nb > 1 {
+			var us []map[string][]*targetgroup.Group
+			for _, b := range steps[si : si+nb] {
+				us = append(us, stepGroups(b))
+			}
+			err = p.burst(us)
+			res.AddStat("bursts_of_updates", 1)
+		} else {
+			err = runStep(p, st)
+		}
+		if err != nil {
 			res.Violate("C17/step-did-not-complete", "step %d (%s %v): %v", si, st.Kind, st.Jobs, err)
 			break
 		}
-		m.apply(st)
-		res.Execs++
-		res.AddStat("sequential_steps", 1)
+		for _, b := range steps[si : si+nb] {
+			m.apply(b)
+			res.Execs++
+			res.AddStat("sequential_steps", 1)
+		}
+		si += nb - 1
+		st = steps[si]
 		act, drop, byHash := p.disc.ActiveTargets(), p.disc.DropTargets(), p.disc.ActiveTargetsByHash()
 		for h, t := range byHash {
 			hashOfTid[t.ShardTarget.Labels.Get("tid")] = h
